@@ -233,9 +233,8 @@ def parse_kvline(s, allow_bare_keys=True):
             while k < n and s[k] not in " \t":
                 k += 1
             val = s[j:k]
-            if '"' in val:
-                # Tor: an unquoted value may not contain a double quote
-                raise ParseError("quote inside unquoted value %r" % val)
+            # an unquoted value runs to the next blank; a double quote that is not its first character is just a
+            # character (control_setconf_helper / kvline_parse copy the bytes up to the next space)
             items.append((key, val))
             i = k
 
